@@ -248,6 +248,9 @@ func (l *recLock) Release(ctx context.Context) error {
 type recProvider struct {
 	inner providers.Provider
 	rec   *recorder
+	// forceEnrichOK makes EnrichSession succeed even without an e-mail: how providers built on the
+	// ProviderData defaults behave (they do not refuse an identity without e-mail themselves)
+	forceEnrichOK bool
 }
 
 func (p *recProvider) Data() *providers.ProviderData { return p.inner.Data() }
@@ -268,6 +271,9 @@ func (p *recProvider) GetEmailAddress(ctx context.Context, s *sessionsapi.Sessio
 }
 func (p *recProvider) EnrichSession(ctx context.Context, s *sessionsapi.SessionState) error {
 	err := p.inner.EnrichSession(ctx, s)
+	if p.forceEnrichOK {
+		err = nil
+	}
 	p.rec.add(recEvent{Op: "enrich", Err: err != nil})
 	return err
 }
